@@ -17,8 +17,10 @@ RULE = ("comparable types (all comparable leaves incl. key_hash/key of four curv
         "differ and, for composite types, the first differing component is not the last one. Distinct = distinct case.")
 
 
-def _cmp_impl(t, a, b, case):
-    ma, mb = rv.to_micheline(t, a), rv.to_micheline(t, b)
+def _cmp_impl(t, a, b, case, ma=None, mb=None):
+    """ma / mb: the literals exactly as generated (a signature may be spelled under any of its prefixes)"""
+    ma = rv.to_micheline(t, a) if ma is None else ma
+    mb = rv.to_micheline(t, b) if mb is None else mb
     stk, out, err = interp.run([interp.push(t, mb), interp.push(t, ma), {"prim": "COMPARE"}])
     if err is not None:
         raise Violation("COMPARE failed on type %s: %r  a=%s b=%s" % (_ts(t), err.args, ma, mb), case,
@@ -62,11 +64,11 @@ def _blame(t, a, b):
 def check_pair(case):
     t, a, b = case["t"], _dec(case["a"]), _dec(case["b"])
     want = rv.compare(t, a, b)
-    got = _cmp_impl(t, a, b, case)
-    rev = _cmp_impl(t, b, a, case)
+    got = _cmp_impl(t, a, b, case, case["a"], case["b"])
+    rev = _cmp_impl(t, b, a, case, case["b"], case["a"])
     if want is not rv.UNCONSTRAINED and got != want:
         raise Violation("COMPARE %s: a=%s b=%s -> %d, Tezos order gives %d" % (
-            _ts(t), rv.to_micheline(t, a), rv.to_micheline(t, b), got, want), case, "wrong-sign:" + _blame(t, a, b))
+            _ts(t), case["a"], case["b"], got, want), case, "wrong-sign:" + (_blame(t, a, b) if a != b else "same-value-other-spelling"))
     if rev != -got:
         raise Violation("COMPARE not antisymmetric on %s: cmp(a,b)=%d cmp(b,a)=%d a=%s b=%s" % (
             _ts(t), got, rev, rv.to_micheline(t, a), rv.to_micheline(t, b)), case, "antisymmetry:" + _blame(t, a, b))
@@ -78,7 +80,8 @@ def check_pair(case):
 def check_triple(case):
     t = case["t"]
     a, b, c = _dec(case["a"]), _dec(case["b"]), _dec(case["c"])
-    ab, bc, ac = _cmp_impl(t, a, b, case), _cmp_impl(t, b, c, case), _cmp_impl(t, a, c, case)
+    ab, bc, ac = (_cmp_impl(t, a, b, case, case["a"], case["b"]), _cmp_impl(t, b, c, case, case["b"], case["c"]),
+                  _cmp_impl(t, a, c, case, case["a"], case["c"]))
     if ab <= 0 and bc <= 0 and not ac <= 0 or ab >= 0 and bc >= 0 and not ac >= 0 or (ab == 0 and ac != bc):
         raise Violation("COMPARE not transitive on %s: ab=%d bc=%d ac=%d; a=%s b=%s c=%s" % (
             _ts(t), ab, bc, ac, rv.to_micheline(t, a), rv.to_micheline(t, b), rv.to_micheline(t, c)), case,
@@ -190,11 +193,33 @@ def _ctypes(depth):
 
 
 @st.composite
+def respell(draw, m):
+    """A signature is 64 (96) raw bytes; the notations edsig / spsig / p2sig / sig denote the same value. Every generic
+    `sig..` literal in the Micheline value is re-spelled under a randomly chosen prefix."""
+    if isinstance(m, list):
+        return [draw(respell(x)) for x in m]
+    if isinstance(m, dict):
+        if "string" in m and len(m["string"]) == 96 and m["string"].startswith("sig"):
+            dec = rc_mod().tz_decode(m["string"])
+            if dec and dec[0] == "sig":
+                return {"string": rc_mod().tz_encode(dec[1], draw(st.sampled_from(["sig", "sig", "edsig", "spsig", "p2sig"])))}
+            return m
+        if "args" in m:
+            return dict(m, args=[draw(respell(a)) for a in m["args"]])
+    return m
+
+
+def rc_mod():
+    from vlib import ref_crypto
+    return ref_crypto
+
+
+@st.composite
 def pair_cases(draw, depth):
     t = draw(_ctypes(depth))
     a = draw(gt.values(t))
     b = draw(gt.near(t, a)) if draw(st.integers(0, 4)) else draw(gt.values(t))
-    return {"mode": "pair", "t": t, "a": _enc(t, a), "b": _enc(t, b)}
+    return {"mode": "pair", "t": t, "a": draw(respell(_enc(t, a))), "b": draw(respell(_enc(t, b)))}
 
 
 @st.composite
@@ -207,7 +232,7 @@ def triple_cases(draw, depth):
     # only triples whose three reference comparisons are all constrained
     if any(rv.compare(t, x, y) is rv.UNCONSTRAINED for x in xs for y in xs):
         c = b
-    return {"mode": "triple", "t": t, "a": _enc(t, a), "b": _enc(t, b), "c": _enc(t, c)}
+    return {"mode": "triple", "t": t, "a": draw(respell(_enc(t, a))), "b": draw(respell(_enc(t, b))), "c": draw(respell(_enc(t, c)))}
 
 
 @st.composite
@@ -218,7 +243,7 @@ def coll_cases(draw, depth):
     for _ in range(draw(st.integers(1, 5))):
         vals.append(draw(gt.near(t, draw(st.sampled_from(vals)))))
     vals = gt._consistent(t, vals)
-    return {"mode": "coll", "t": t, "vals": [_enc(t, v) for v in vals], "swap": draw(st.integers(0, 5))}
+    return {"mode": "coll", "t": t, "vals": [draw(respell(_enc(t, v))) for v in vals], "swap": draw(st.integers(0, 5))}
 
 
 def _prop(case, stats):
